@@ -166,3 +166,34 @@ def build(repo):
     u.rewrites = ["R8: folding arms and canonicalisation cut by their match heads; free variables l, r, op, pos became parameters"]
     u.dropped = ["everything else of generate_arithm / generate_shift (the run-time lowering)"]
     return u
+
+
+def lift(harness, vals):
+    sym = {"add": "+", "sub": "-", "and": "&", "or": "|", "xor": "^", "mul": "*", "div": "/", "brs": ">>", "bls": "<<"}
+    m = re.match(r"fold_(\w+)$", harness)
+    if not m or m.group(1) not in sym:
+        return None
+    ints = [int(v) for v in vals if re.match(r"^\s*-?\d+\s*$", v)]
+    if len(ints) < 2:
+        return None
+    a, b = ints[0], ints[1]
+    o = m.group(1)
+    def lit(v):
+        return "(%d)" % v if v >= 0 else ("(0 - %d)" % (-v) if v > -2**31 else "(0 - 2147483647 - 1)")
+    def fits(v):
+        return -2**31 <= v <= 2**31 - 1
+    val = None
+    if o == "div":
+        if b != 0 and not (a == -2**31 and b == -1):
+            q = abs(a) // abs(b); val = q if (a < 0) == (b < 0) else -q
+    elif o in ("brs", "bls"):
+        if 0 <= b < 32:
+            val = a >> b if o == "brs" else a << b
+    else:
+        val = {"add": a + b, "sub": a - b, "and": a & b, "or": a | b, "xor": a ^ b, "mul": a * b}[o]
+    if val is not None and not fits(val):
+        val = None
+    src = "short x;\nvoid main() { x = %s %s %s; }\n" % (lit(a), sym[o], lit(b))
+    if val is None:
+        return {"source": src, "args": ["-O0"], "expect": {"panic": False, "is_error": True}, "note": "undefined in 32-bit int: must be rejected with an error"}
+    return {"source": src, "args": ["-O0"], "expect": {"panic": False}, "simulate": {"expect16": {"x": val & 0xffff}}, "note": "C value %d; the short keeps the low 16 bits" % val}
